@@ -93,7 +93,7 @@ def check_doc(case: Dict[str, Any]) -> Tuple[List[Tuple[str, str]], Dict[str, An
     pieces = []
     _walk_outside_table(dom.documentElement, pieces)
     got = _TOK.findall(''.join(pieces))
-    want = docmodel.body_tokens(doc['blocks'])
+    want = docmodel.body_tokens(doc['blocks']) + (docmodel.seealso_tokens(doc) if fmt in ('google', 'numpy') else [])
     if got != want:
         lost = [t for t in want if t not in got]
         dup = sorted({t for t in got if got.count(t) > 1})
